@@ -1,6 +1,7 @@
 package httpgen
 
 import (
+	"strconv"
 	"strings"
 
 	"google.golang.org/protobuf/compiler/protogen"
@@ -237,9 +238,11 @@ func (g *Generator) generateEmptyBehaviorUnmarshalJSON(gf *protogen.GeneratedFil
 			field := fieldInfo.Field
 			jsonName := field.Desc.JSONName()
 
-			gf.P("// Handle empty_behavior=NULL: convert null to {} for protojson")
+			// the empty value as protojson spells it: {} except for well-known types that are not JSON objects
+			emptyJSON := annotations.EmptyMessageJSON(field)
+			gf.P("// Handle empty_behavior=NULL: convert null to ", emptyJSON, " for protojson")
 			gf.P(`if rawVal, ok := raw["`, jsonName, `"]; ok && string(rawVal) == "null" {`)
-			gf.P(`raw["`, jsonName, `"] = []byte("{}")`)
+			gf.P(`raw["`, jsonName, `"] = []byte(`, strconv.Quote(emptyJSON), `)`)
 			gf.P("}")
 			gf.P()
 		}
